@@ -973,4 +973,69 @@ def coplanar_scale_free(repo: Repo) -> RuleRun:
 coplanar_scale_free.rule_id = "C11.COPLANAR-SCALE-FREE"
 
 
-RULES = [quad_map_rule, chop_coverage, chop_role, radial_convention, arc_rings, chain_source, mirror_pairing, trig_domain, fill_conformal, arc_side, affine_kinds, stack_chain, no_shared_parts, moved_once, transform_routing, axis_terms, mirror_matrix, arguments_untouched, arc_midpoint, scalar_amount, joint_cusps, no_exact_coordinates, grid_roles, collapsed_edge, circle_test_symmetric, shear_sign, coplanar_scale_free]
+
+def revolved_sides(repo: Repo) -> RuleRun:
+    """'adjacent blocks share the vertices AND edges along their common faces' for revolved shapes: each of the four corners of every
+    face of the sketch sweeps an arc about the axis - every operation of a RevolvedShape (and RevolvedStack tier) receives an
+    angle-and-axis edge on ALL four side edges. Abstract run of the constructor's own loop (lofting and Angle() modelled): a corner
+    left out stays a straight chord - seen only where a sketch vertex is the last corner of every face it belongs to."""
+    from ..peval import NO_MATCH, Evaluator, NotEvaluable, Obj, Raised, Sym
+
+    r = RuleRun(PROP, "C11.REVOLVED-SIDES", floor=1, what="RevolvedShape gives every operation an angle edge on each of its four side edges (0, 1, 2, 3)")
+    cls = repo.cls("construct.shape.RevolvedShape")
+    fn = cls.methods.get("__init__")
+    r.require(fn is not None, "RevolvedShape.__init__ vanished")
+    shape = Obj("shape", cls=cls)
+    ops = [Obj(f"op{k}") for k in range(3)]
+    got = {o._name: [] for o in ops}
+
+    def hook(ev, call: ast.Call, name):
+        if isinstance(call.func, ast.Attribute) and call.func.attr == "__init__":
+            shape.set("operations", list(ops))
+            return None
+        if isinstance(call.func, ast.Attribute) and call.func.attr == "add_side_edge":
+            o = ev.eval(call.func.value)
+            args = [ev.eval(a) for a in call.args]
+            got[o._name].append((args[0], repr(args[1])))
+            return None
+        if isinstance(call.func, ast.Attribute) and call.func.attr in ("copy", "rotate"):
+            return Sym("top-sketch")
+        if (name or "").split(".")[-1] == "Angle":
+            return Sym("Angle(" + ", ".join(repr(ev.eval(a)) for a in call.args) + ")")
+        return NO_MATCH
+
+    try:
+        Evaluator(repo=repo, module=fn.module, call_hook=hook).call_funcinfo(fn, [shape, Sym("sketch"), Sym("angle"), Sym("axis"), Sym("origin")])
+    except (Raised, NotEvaluable) as err:
+        raise AnalysisError(f"RevolvedShape.__init__ not evaluable on the symbolic model: {err}") from err
+    for o in ops:
+        corners = sorted(c for c, _ in got[o._name] if isinstance(c, int))
+        datas = {d for _, d in got[o._name]}
+        r.check(
+            corners == [0, 1, 2, 3] and datas == {"Angle(angle, axis)"},
+            fn,
+            f"{o._name}: side edges {corners}",
+            f"RevolvedShape gives operation {o._name} angle edges on side edges {corners} with data {sorted(datas)} (expected 0, 1, 2, 3, each Angle(angle, axis)): the corner left out is joined to its "
+            "revolved image by a straight chord - the last corner of a Grid, the inner point of a QuarterDisk - and neighbouring blocks do not share that edge",
+            fn.node,
+            key=f"sides:{o._name}",
+        )
+    return r
+
+
+revolved_sides.rule_id = "C11.REVOLVED-SIDES"
+
+
+
+def vertex_tolerance(repo: Repo) -> RuleRun:
+    """'adjacent blocks share the vertices ... and only those': corners are merged by an absolute distance test, wherever the shape sits - a closeness test with a relative part (numpy's allclose default) merges the distinct corners of a small shape far from the origin. Same rule as C06.VERTEX-TOLERANCE."""
+    from ..report import rebrand
+    from . import c06
+
+    return rebrand(c06.vertex_tolerance(repo), PROP, "C11.VERTEX-TOLERANCE")
+
+
+vertex_tolerance.rule_id = "C11.VERTEX-TOLERANCE"
+
+
+RULES = [quad_map_rule, chop_coverage, chop_role, radial_convention, arc_rings, chain_source, mirror_pairing, trig_domain, fill_conformal, arc_side, affine_kinds, stack_chain, no_shared_parts, moved_once, transform_routing, axis_terms, mirror_matrix, arguments_untouched, arc_midpoint, scalar_amount, joint_cusps, no_exact_coordinates, grid_roles, collapsed_edge, circle_test_symmetric, shear_sign, coplanar_scale_free, revolved_sides, vertex_tolerance]
